@@ -21,27 +21,27 @@ theorem bind_ok_inv {m : M α} {f : α → M β} {s s2 : St} {b : β} (h : (m >>
   | error e => simp at h
 
 theorem require_ok_inv {c : Bool} {e : Err} {s s' : St} {u : Unit} (h : M.require c e s = (.ok u, s')) :
-    c = true ∧ s' = s := by
+    c = true ∧ s = s' := by
   cases c with
-  | true => simp at h; exact ⟨rfl, h.symm⟩
+  | true => simp at h; exact ⟨rfl, h⟩
   | false => simp at h
 
-theorem ofRes_ok_inv {r : Res α} {s s' : St} {a : α} (h : M.ofRes r s = (.ok a, s')) : r = .ok a ∧ s' = s := by
+theorem ofRes_ok_inv {r : Res α} {s s' : St} {a : α} (h : M.ofRes r s = (.ok a, s')) : r = .ok a ∧ s = s' := by
   simp only [run_ofRes, Prod.mk.injEq] at h
-  exact ⟨h.1, h.2.symm⟩
+  exact ⟨h.1, h.2⟩
 
 theorem queryPos_ok_inv {q : AList String SupplyInfo → AList String BorrowInfo → Res α} {s s' : St} {a : α}
-    (h : M.queryPos q s = (.ok a, s')) : q s.supplies s.borrows = .ok a ∧ s' = s := by
+    (h : M.queryPos q s = (.ok a, s')) : q s.supplies s.borrows = .ok a ∧ s = s' := by
   simp only [run_queryPos, Prod.mk.injEq] at h
-  exact ⟨h.1, h.2.symm⟩
+  exact ⟨h.1, h.2⟩
 
-theorem modify_ok_inv {g : St → St} {s s' : St} {u : Unit} (h : M.modify g s = (.ok u, s')) : s' = g s := by
+theorem modify_ok_inv {g : St → St} {s s' : St} {u : Unit} (h : M.modify g s = (.ok u, s')) : g s = s' := by
   simp only [run_modify, Prod.mk.injEq] at h
-  exact h.2.symm
+  exact h.2
 
-theorem pure_ok_inv {a b : α} {s s' : St} (h : (pure a : M α) s = (.ok b, s')) : b = a ∧ s' = s := by
+theorem pure_ok_inv {a b : α} {s s' : St} (h : (pure a : M α) s = (.ok b, s')) : a = b ∧ s = s' := by
   simp only [run_pure, Prod.mk.injEq, Except.ok.injEq] at h
-  exact ⟨h.1.symm, h.2.symm⟩
+  exact ⟨h.1, h.2⟩
 
 /-- a computation that never changes the core, run to a normal end -/
 theorem kcp_ok {c0 : Core} {m : M α} (hk : KCP c0 m) {s s' : St} {a : α} (hs : s.core = c0) (h : m s = (.ok a, s')) :
@@ -53,11 +53,41 @@ end
 
 /-! ### supply -/
 
-/-- the entry `supply` writes -/
-def supplyEntry (cx : ACtx) (old : Option SupplyInfo) (poolAmt : Rat) (coll : Bool) (idx : Rat) : SupplyInfo :=
-  match old with
-  | some info => { info with base := cx.add info.base poolAmt }
-  | none => { base := cx.add 0 poolAmt, coll := coll, beginIdx := idx }
+theorem divE_ok_eq {a b x : Rat} (h : divE cx a b = .ok x) : b ≠ 0 ∧ x = cx.div a b := by
+  have hb := divE_ok_ne h
+  unfold divE at h
+  simp only [hb, if_false] at h
+  cases h
+  exact ⟨hb, rfl⟩
+
+theorem walletDebit_ok_inv {s s' : St} {tok : String} {amount : Rat} {u : Unit}
+    (h : walletDebit cx tok amount s = (.ok u, s')) :
+    ∃ w', Wallet.debit cx.toNumCtx s.wallet tok amount false = .ok w' ∧ s' = { s with wallet := w' } := by
+  unfold walletDebit at h
+  split at h
+  · rename_i w hw; exact ⟨w, hw, by cases h; rfl⟩
+  · cases h
+  · cases h
+
+theorem checkCanCollateral_ok_inv {s s' : St} {tok : String} {coll : Bool} {u : Unit}
+    (h : checkCanCollateral env tok coll s = (.ok u, s')) : s = s' := by
+  unfold checkCanCollateral at h
+  split at h
+  · obtain ⟨_, s2, h2, h⟩ := bind_ok_inv h
+    obtain ⟨_, rfl⟩ := ofRes_ok_inv h2
+    exact (require_ok_inv h).2
+  · exact (pure_ok_inv h).2
+
+theorem checkFlag_ok_inv {s s' : St} {old : Option SupplyInfo} {coll : Bool} {u : Unit}
+    (h : checkFlag old coll s = (.ok u, s')) : (∀ info, old = some info → info.coll = coll) ∧ s = s' := by
+  unfold checkFlag at h
+  cases old with
+  | none => exact ⟨fun _ hi => (by cases hi), (pure_ok_inv h).2⟩
+  | some i =>
+    obtain ⟨hc, e⟩ := require_ok_inv h
+    refine ⟨fun info hi => ?_, e⟩
+    cases hi
+    simpa using hc
 
 theorem supply_inv {s s' : St} {tok : String} {amount : Rat} {coll : Bool}
     (h : supply cx env tok amount coll s = (.ok (), s')) :
@@ -74,73 +104,384 @@ theorem supply_inv {s s' : St} {tok : String} {amount : Rat} {coll : Bool}
   obtain ⟨_, s1, h1, h⟩ := bind_ok_inv h
   obtain ⟨hpos, rfl⟩ := require_ok_inv h1
   have hpos' : amount > 0 := by simpa using hpos
-  -- the optional collateral-capability check leaves the state alone
-  have key : ∀ s0, (do
-      let st ← ofRes (env.statusOf tok)
-      let poolAmt ← ofRes (divE cx amount st.liqIdx)
-      let old ← queryPos (fun sup _ => .ok (AList.get? sup tok))
-      match old with
-        | some info => require (info.coll == coll) .flagMismatch
-        | none => pure ()
-      walletDebit cx tok amount
-      let info : SupplyInfo := match old with
-        | some info => { info with base := cx.add info.base poolAmt }
-        | none => { base := cx.add 0 poolAmt, coll := coll, beginIdx := st.liqIdx }
-      commitSupply tok info
-      record (.supply tok amount coll (cx.mul info.base st.liqIdx))
-      setUpdated : M Unit) s0 = (.ok (), s') → s0 = s → _ := by
-    intro s0 h hs0
-    subst hs0
-    obtain ⟨st, s1, h1, h⟩ := bind_ok_inv h
-    obtain ⟨hst, rfl⟩ := ofRes_ok_inv h1
-    obtain ⟨poolAmt, s1, h1, h⟩ := bind_ok_inv h
-    obtain ⟨hpa, rfl⟩ := ofRes_ok_inv h1
-    have hnz : st.liqIdx ≠ 0 := divE_ok_ne hpa
-    have hpa' : poolAmt = cx.div amount st.liqIdx := by
-      unfold divE at hpa; simp only [hnz, if_false] at hpa; cases hpa; rfl
-    obtain ⟨old, s1, h1, h⟩ := bind_ok_inv h
-    obtain ⟨hold, rfl⟩ := queryPos_ok_inv h1
-    have hold' : old = AList.get? s0.supplies tok := by cases hold; rfl
-    obtain ⟨_, s1, h1, h⟩ := bind_ok_inv h
-    have hflag : (∀ info, AList.get? s0.supplies tok = some info → info.coll = coll) ∧ s1 = s0 := by
-      cases hoc : old with
-      | none =>
-        rw [hoc] at h1
-        obtain ⟨_, rfl⟩ := pure_ok_inv h1
-        refine ⟨fun info hi => ?_, rfl⟩
-        rw [← hold', hoc] at hi; cases hi
-      | some i =>
-        rw [hoc] at h1
-        obtain ⟨hc, rfl⟩ := require_ok_inv h1
-        refine ⟨fun info hi => ?_, rfl⟩
-        rw [← hold', hoc] at hi; cases hi
-        simpa using hc
-    obtain ⟨hfl, rfl⟩ := hflag
-    obtain ⟨_, s1, h1, h⟩ := bind_ok_inv h
-    have hw : ∃ w', Wallet.debit cx.toNumCtx s0.wallet tok amount false = .ok w' ∧ s1 = { s0 with wallet := w' } := by
-      unfold walletDebit at h1
-      split at h1
-      · rename_i w hw; exact ⟨w, hw, by cases h1; rfl⟩
-      · cases h1
-      · cases h1
-    obtain ⟨w', hw', rfl⟩ := hw
-    obtain ⟨_, s1, h1, h⟩ := bind_ok_inv h
-    have e1 := modify_ok_inv h1
-    obtain ⟨_, s2, h2, h⟩ := bind_ok_inv h
-    have e2 := modify_ok_inv h2
-    have e3 := modify_ok_inv h
-    refine ⟨st, w', hst, hnz, hfl, hw', ?_⟩
-    rw [e3, e2, e1, hold', hpa']
-    rfl
+  obtain ⟨_, s1, h1, h⟩ := bind_ok_inv h
+  obtain rfl := checkCanCollateral_ok_inv h1
+  obtain ⟨st, s1, h1, h⟩ := bind_ok_inv h
+  obtain ⟨hst, rfl⟩ := ofRes_ok_inv h1
+  obtain ⟨poolAmt, s1, h1, h⟩ := bind_ok_inv h
+  obtain ⟨hpa, rfl⟩ := ofRes_ok_inv h1
+  obtain ⟨hnz, hpa'⟩ := divE_ok_eq hpa
+  obtain ⟨old, s1, h1, h⟩ := bind_ok_inv h
+  obtain ⟨hold, rfl⟩ := queryPos_ok_inv h1
+  have hold' : old = AList.get? s.supplies tok := by cases hold; rfl
+  obtain ⟨_, s2, h1, h⟩ := bind_ok_inv h
+  obtain ⟨hfl0, rfl⟩ := checkFlag_ok_inv h1
+  have hfl : ∀ info, AList.get? s.supplies tok = some info → info.coll = coll :=
+    fun info hi => hfl0 info (by rw [hold', hi])
+  obtain ⟨_, s3, h1, h⟩ := bind_ok_inv h
+  obtain ⟨w', hw', rfl⟩ := walletDebit_ok_inv h1
+  obtain ⟨_, s3, h1, h⟩ := bind_ok_inv h
+  have e1 := modify_ok_inv h1
+  obtain ⟨_, s4, h2, h⟩ := bind_ok_inv h
+  have e2 := modify_ok_inv h2
+  have e3 := modify_ok_inv h
+  refine ⟨st, w', hopen, hpos', hst, hnz, hfl, hw', ?_⟩
+  rw [← e3, ← e2, ← e1, hold', hpa']
+  rfl
+
+/-! ### borrow -/
+
+theorem borrow_inv {s s' : St} {tok : String} {amount? : Option Rat}
+    (h : borrow cx env tok amount? s = (.ok (), s')) :
+    ∃ amount st, env.isOpen = true ∧ amount > 0 ∧ (∀ a, amount? = some a → amount = a) ∧
+      env.statusOf tok = .ok st ∧ st.varIdx ≠ 0 ∧
+      s'.core = ⟨s.supplies,
+                 AList.set s.borrows tok (borrowEntry cx (AList.get? s.borrows tok) (cx.div amount st.varIdx) st.varIdx),
+                 Wallet.credit cx.toNumCtx s.wallet tok amount,
+                 s.actions ++ [.borrow tok amount
+                   (cx.mul (borrowEntry cx (AList.get? s.borrows tok) (cx.div amount st.varIdx) st.varIdx).base st.varIdx)]⟩ := by
+  have hR := readInv_core (cx := cx) (env := env) s.core
+  unfold borrow guardOpen at h
+  obtain ⟨_, s1, h1, h⟩ := bind_ok_inv h
+  obtain ⟨hopen, rfl⟩ := require_ok_inv h1
+  obtain ⟨amount, s1, h1, h⟩ := bind_ok_inv h
+  have ha : (∀ a, amount? = some a → amount = a) ∧ s1.core = s.core := by
+    unfold borrowAmountOf at h1
+    cases amount? with
+    | some a =>
+      obtain ⟨e, rfl⟩ := pure_ok_inv h1
+      exact ⟨fun a' ha' => by cases ha'; exact e.symm, rfl⟩
+    | none => exact ⟨fun a' ha' => (by cases ha'), kcp_ok (hR.toReadInv3.maxBorrowAmount tok) rfl h1⟩
+  obtain ⟨ha, c1⟩ := ha
+  obtain ⟨_, s2, h1, h⟩ := bind_ok_inv h
+  obtain ⟨hpos, rfl⟩ := require_ok_inv h1
+  have hpos' : amount > 0 := by simpa using hpos
+  obtain ⟨st, s2, h1, h⟩ := bind_ok_inv h
+  obtain ⟨hst, rfl⟩ := ofRes_ok_inv h1
+  obtain ⟨r, s2, h1, h⟩ := bind_ok_inv h
+  obtain ⟨_, rfl⟩ := ofRes_ok_inv h1
+  obtain ⟨_, s2, h1, h⟩ := bind_ok_inv h
+  obtain ⟨_, rfl⟩ := require_ok_inv h1
+  obtain ⟨cv, s2, h1, h⟩ := bind_ok_inv h
+  have c2 : s2.core = s.core := kcp_ok hR.cv c1 h1
+  obtain ⟨_, s3, h1, h⟩ := bind_ok_inv h
+  obtain ⟨_, rfl⟩ := require_ok_inv h1
+  obtain ⟨ml, s3, h1, h⟩ := bind_ok_inv h
+  have c3 : s3.core = s.core := kcp_ok hR.toReadInv3.maxLtv c2 h1
+  obtain ⟨_, s4, h1, h⟩ := bind_ok_inv h
+  obtain ⟨_, rfl⟩ := require_ok_inv h1
+  obtain ⟨hf, s4, h1, h⟩ := bind_ok_inv h
+  have c4 : s4.core = s.core := kcp_ok hR.toReadInv3.healthFactor c3 h1
+  obtain ⟨_, s5, h1, h⟩ := bind_ok_inv h
+  obtain ⟨_, rfl⟩ := require_ok_inv h1
+  obtain ⟨p, s5, h1, h⟩ := bind_ok_inv h
+  obtain ⟨_, rfl⟩ := ofRes_ok_inv h1
+  obtain ⟨bv, s5, h1, h⟩ := bind_ok_inv h
+  have c5 : s5.core = s.core := kcp_ok hR.bo c4 h1
+  obtain ⟨needed, s6, h1, h⟩ := bind_ok_inv h
+  obtain ⟨_, rfl⟩ := ofRes_ok_inv h1
+  obtain ⟨_, s6, h1, h⟩ := bind_ok_inv h
+  obtain ⟨_, rfl⟩ := require_ok_inv h1
+  obtain ⟨base, s6, h1, h⟩ := bind_ok_inv h
+  obtain ⟨hb, rfl⟩ := ofRes_ok_inv h1
+  obtain ⟨hnz, hb'⟩ := divE_ok_eq hb
+  obtain ⟨old, s6, h1, h⟩ := bind_ok_inv h
+  obtain ⟨hold, rfl⟩ := queryPos_ok_inv h1
+  have hold' : old = AList.get? s5.borrows tok := by cases hold; rfl
+  obtain ⟨_, s6, h1, h⟩ := bind_ok_inv h
+  have e1 := modify_ok_inv h1
+  obtain ⟨_, s7, h2, h⟩ := bind_ok_inv h
+  have e2 := modify_ok_inv h2
+  have e3 := modify_ok_inv h
+  refine ⟨amount, st, hopen, hpos', ha, hst, hnz, ?_⟩
+  have q1 : s5.supplies = s.supplies := congrArg Core.supplies c5
+  have q2 : s5.borrows = s.borrows := congrArg Core.borrows c5
+  have q3 : s5.wallet = s.wallet := congrArg Core.wallet c5
+  have q4 : s5.actions = s.actions := congrArg Core.actions c5
+  rw [← e3, ← e2, ← e1, hold', hb']
+  show (⟨s5.supplies, AList.set s5.borrows tok _, Wallet.credit cx.toNumCtx s5.wallet tok amount, s5.actions ++ _⟩ : Core) = _
+  rw [q1, q2, q3, q4]
+
+/-! ### `__sub_supply_amount`, `__sub_borrow_amount` -/
+
+theorem subSupplyAmount_ok_inv {s s' : St} {tok : String} {amt nb : Rat} {info : SupplyInfo}
+    (h : subSupplyAmount cx env tok amt s = (.ok nb, s')) (hg : AList.get? s.supplies tok = some info) :
+    ∃ st, env.statusOf tok = .ok st ∧ st.liqIdx ≠ 0 ∧ nb = subBase cx info.base (cx.div amt st.liqIdx) ∧
+      s' = (commitSubSupply tok info nb s).2 := by
+  unfold subSupplyAmount at h
+  obtain ⟨old, s1, h1, h⟩ := bind_ok_inv h
+  obtain ⟨hold, rfl⟩ := queryPos_ok_inv h1
+  have : old = some info := by cases hold; exact hg
+  subst this
   dsimp only at h
-  split at h
-  · obtain ⟨r, s1, h1, h⟩ := bind_ok_inv h
-    obtain ⟨_, rfl⟩ := ofRes_ok_inv h1
-    obtain ⟨_, s1, h1, h⟩ := bind_ok_inv h
-    obtain ⟨_, rfl⟩ := require_ok_inv h1
-    obtain ⟨st, w', x⟩ := key _ h rfl
-    exact ⟨st, w', hopen, hpos', x⟩
-  · obtain ⟨st, w', x⟩ := key _ h rfl
-    exact ⟨st, w', hopen, hpos', x⟩
+  obtain ⟨st, s1, h1, h⟩ := bind_ok_inv h
+  obtain ⟨hst, rfl⟩ := ofRes_ok_inv h1
+  obtain ⟨d, s1, h1, h⟩ := bind_ok_inv h
+  obtain ⟨hd, rfl⟩ := ofRes_ok_inv h1
+  obtain ⟨hnz, rfl⟩ := divE_ok_eq hd
+  obtain ⟨_, s1, h1, h⟩ := bind_ok_inv h
+  obtain ⟨e1, e2⟩ := pure_ok_inv h
+  refine ⟨st, hst, hnz, e1.symm, ?_⟩
+  rw [← e2, ← modify_ok_inv h1, ← e1]
+  rfl
+
+theorem subBorrowAmount_ok_inv {s s' : St} {tok : String} {amt nb : Rat} {info : BorrowInfo}
+    (h : subBorrowAmount cx env tok amt s = (.ok nb, s')) (hg : AList.get? s.borrows tok = some info) :
+    ∃ st, env.statusOf tok = .ok st ∧ st.varIdx ≠ 0 ∧ nb = subBase cx info.base (cx.div amt st.varIdx) ∧
+      s' = (commitSubBorrow tok info nb s).2 := by
+  unfold subBorrowAmount at h
+  obtain ⟨old, s1, h1, h⟩ := bind_ok_inv h
+  obtain ⟨hold, rfl⟩ := queryPos_ok_inv h1
+  have : old = some info := by cases hold; exact hg
+  subst this
+  dsimp only at h
+  obtain ⟨st, s1, h1, h⟩ := bind_ok_inv h
+  obtain ⟨hst, rfl⟩ := ofRes_ok_inv h1
+  obtain ⟨d, s1, h1, h⟩ := bind_ok_inv h
+  obtain ⟨hd, rfl⟩ := ofRes_ok_inv h1
+  obtain ⟨hnz, rfl⟩ := divE_ok_eq hd
+  obtain ⟨_, s1, h1, h⟩ := bind_ok_inv h
+  obtain ⟨e1, e2⟩ := pure_ok_inv h
+  refine ⟨st, hst, hnz, e1.symm, ?_⟩
+  rw [← e2, ← modify_ok_inv h1, ← e1]
+  rfl
+
+/-! ### withdraw -/
+
+theorem getSupply_ok_good {s s1 : St} (hs : Good cx env s) {tok : String} {sv : SupplyV}
+    (h : getSupply cx env tok s = (.ok sv, s1)) :
+    ∃ info st, AList.get? s.supplies tok = some info ∧ env.statusOf tok = .ok st ∧
+      sv.amount = cx.mul info.base st.liqIdx ∧ s1.core = s.core := by
+  obtain ⟨r1, _, _, _⟩ := reads_getSupply (cx := cx) (env := env) tok s hs
+  rw [h] at r1
+  dsimp only at r1
+  have hc := kcp_ok ((readInv_core (cx := cx) (env := env) s.core).toReadInv3.getSupply tok) rfl h
+  unfold specGetSupply at r1
+  cases hg : AList.get? s.supplies tok with
+  | none => rw [hg] at r1; cases r1
+  | some info =>
+    rw [hg] at r1
+    unfold specSupplyOf at r1
+    cases hst : env.statusOf tok with
+    | error e => simp [optRes, hst, bind, Except.bind] at r1
+    | ok st =>
+      cases hv : supValOf cx env tok info with
+      | error e => simp [optRes, hst, hv, bind, Except.bind] at r1
+      | ok v =>
+        simp only [optRes, hst, hv, bind, Except.bind, pure, Except.pure, Except.ok.injEq] at r1
+        refine ⟨info, st, rfl, rfl, ?_, hc⟩
+        rw [r1]
+
+theorem kcp_checkWithdrawHf {c0 : Core} {tok : String} {info : SupplyInfo} (hg : AList.get? c0.supplies tok = some info)
+    (amount idx : Rat) : KCP c0 (checkWithdrawHf cx env tok info amount idx) := by
+  unfold checkWithdrawHf
+  split
+  · exact Inv.bind (Inv.ofRes _) (fun _ => Inv.bind (kcp_trial hg _) (fun _ => Inv.require _ _))
+  · exact Inv.pure _
+
+/-- `_supplies` after `__sub_supply_amount` left the scaled balance `nb` -/
+def supAfterSub (sup : AList String SupplyInfo) (tok : String) (info : SupplyInfo) (nb : Rat) : AList String SupplyInfo :=
+  if nb = 0 then AList.erase sup tok else AList.set sup tok { info with base := nb }
+
+/-- `_borrows` after `__sub_borrow_amount` left the scaled balance `nb` -/
+def borAfterSub (bor : AList String BorrowInfo) (tok : String) (info : BorrowInfo) (nb : Rat) : AList String BorrowInfo :=
+  if nb = 0 then AList.erase bor tok else AList.set bor tok { info with base := nb }
+
+theorem withdraw_inv {s s' : St} (hs : Good cx env s) {tok : String} {amount? : Option Rat}
+    (h : withdraw cx env tok amount? s = (.ok (), s')) :
+    ∃ st info amount nb, env.isOpen = true ∧ env.statusOf tok = .ok st ∧ st.liqIdx ≠ 0 ∧
+      AList.get? s.supplies tok = some info ∧
+      amount = amount?.getD (cx.mul info.base st.liqIdx) ∧ amount > 0 ∧ amount ≤ cx.mul info.base st.liqIdx ∧
+      nb = subBase cx info.base (cx.div amount st.liqIdx) ∧
+      s'.core = ⟨supAfterSub s.supplies tok info nb, s.borrows, Wallet.credit cx.toNumCtx s.wallet tok amount,
+                 s.actions ++ [.withdraw tok amount (cx.mul nb st.liqIdx)]⟩ := by
+  unfold withdraw guardOpen lookupSupply at h
+  obtain ⟨_, s1, h1, h⟩ := bind_ok_inv h
+  obtain ⟨hopen, rfl⟩ := require_ok_inv h1
+  obtain ⟨st, s1, h1, h⟩ := bind_ok_inv h
+  obtain ⟨hst, rfl⟩ := ofRes_ok_inv h1
+  obtain ⟨sv, s1, h1, h⟩ := bind_ok_inv h
+  obtain ⟨info, st', hg, hst', hamt, c1⟩ := getSupply_ok_good hs h1
+  rw [hst] at hst'; cases hst'
+  dsimp only at h
+  rw [hamt] at h
+  obtain ⟨_, s2, h1, h⟩ := bind_ok_inv h
+  obtain ⟨hpos, rfl⟩ := require_ok_inv h1
+  obtain ⟨_, s2, h1, h⟩ := bind_ok_inv h
+  obtain ⟨hle, rfl⟩ := require_ok_inv h1
+  obtain ⟨info2, s2, h1, h⟩ := bind_ok_inv h
+  obtain ⟨hq, rfl⟩ := queryPos_ok_inv h1
+  have q1 : s1.supplies = s.supplies := congrArg Core.supplies c1
+  have : info = info2 := by
+    rw [q1, hg] at hq; simp only [optRes] at hq; cases hq; rfl
+  subst this
+  obtain ⟨_, s2, h1, h⟩ := bind_ok_inv h
+  have c2 : s2.core = s.core := kcp_ok (kcp_checkWithdrawHf (c0 := s.core) hg _ _) c1 h1
+  obtain ⟨fin, s3, h1, h⟩ := bind_ok_inv h
+  have q2 : s2.supplies = s.supplies := congrArg Core.supplies c2
+  obtain ⟨st2, hst2, hnz, hfin, e3⟩ := subSupplyAmount_ok_inv h1 (by rw [q2]; exact hg)
+  rw [hst] at hst2; cases hst2
+  obtain ⟨_, s4, h1, h⟩ := bind_ok_inv h
+  have e4 := modify_ok_inv h1
+  obtain ⟨_, s5, h2, h⟩ := bind_ok_inv h
+  have e5 := modify_ok_inv h2
+  have e6 := modify_ok_inv h
+  refine ⟨st, info, _, _, hopen, hst, hnz, hg, rfl, by simpa using hpos, by simpa using hle, rfl, ?_⟩
+  rw [← e6, ← e5, ← e4, e3, hfin]
+  have q3 : s2.borrows = s.borrows := congrArg Core.borrows c2
+  have q4 : s2.wallet = s.wallet := congrArg Core.wallet c2
+  have q5 : s2.actions = s.actions := congrArg Core.actions c2
+  show (⟨supAfterSub s2.supplies tok info _, s2.borrows,
+         Wallet.credit cx.toNumCtx s2.wallet tok _, s2.actions ++ _⟩ : Core) = _
+  rw [q2, q3, q4, q5]
+
+/-! ### repay -/
+
+theorem getBorrow_ok_good {s s1 : St} (hs : Good cx env s) {tok : String} {bv : BorrowV}
+    (h : getBorrow cx env tok s = (.ok bv, s1)) :
+    ∃ info st, AList.get? s.borrows tok = some info ∧ env.statusOf tok = .ok st ∧
+      bv.amount = cx.mul info.base st.varIdx ∧ s1.core = s.core ∧ Good cx env s1 := by
+  obtain ⟨r1, g1, _, _⟩ := reads_getBorrow (cx := cx) (env := env) tok s hs
+  rw [h] at r1 g1
+  dsimp only at r1 g1
+  have hc := kcp_ok ((readInv_core (cx := cx) (env := env) s.core).toReadInv3.getBorrow tok) rfl h
+  unfold specGetBorrow at r1
+  cases hg : AList.get? s.borrows tok with
+  | none => rw [hg] at r1; cases r1
+  | some info =>
+    rw [hg] at r1
+    unfold specBorrowOf at r1
+    cases hst : env.statusOf tok with
+    | error e => simp [optRes, hst, bind, Except.bind] at r1
+    | ok st =>
+      cases hv : borValOf cx env tok info with
+      | error e => simp [optRes, hst, hv, bind, Except.bind] at r1
+      | ok v =>
+        simp only [optRes, hst, hv, bind, Except.bind, pure, Except.pure, Except.ok.injEq] at r1
+        refine ⟨info, st, rfl, rfl, ?_, hc, g1⟩
+        rw [r1]
+
+theorem mem_keys_of_contains {ν : Type} {m : AList String ν} {k : String} (h : AList.contains m k = true) : k ∈ keys m := by
+  obtain ⟨v, hv⟩ := aget_of_contains h
+  exact aget_mem_keys hv
+
+/-- a successful `repay_with_collateral` pre-check: the collateral token is supplied -/
+theorem repayCollateralCap_ok_good {s s1 : St} (hs : Good cx env s) {tok ctok : String} {a0 p : Rat}
+    (h : repayCollateralCap cx env tok ctok a0 s = (.ok p, s1)) : ∃ cinfo, AList.get? s.supplies ctok = some cinfo := by
+  unfold repayCollateralCap at h
+  obtain ⟨sv, s2, h1, h⟩ := bind_ok_inv h
+  obtain ⟨r1, _, _, _⟩ := reads_suppliesView (cx := cx) (env := env) s hs
+  rw [h1] at r1
+  dsimp only at r1
+  obtain ⟨_, s3, h2, h⟩ := bind_ok_inv h
+  obtain ⟨hc, _⟩ := require_ok_inv h2
+  have hk : ctok ∈ keys sv := mem_keys_of_contains hc
+  rw [scratchMap_keys r1.symm] at hk
+  exact aget_some_of_mem_keys hk
+
+theorem repay_inv {s s' : St} (hs : Good cx env s) {tok : String} {amount? : Option Rat} {withColl : Bool}
+    {collTok? : Option String} (h : repay cx env tok amount? withColl collTok? s = (.ok (), s')) :
+    ∃ st info payback nb, env.isOpen = true ∧ env.statusOf tok = .ok st ∧ st.varIdx ≠ 0 ∧
+      AList.get? s.borrows tok = some info ∧
+      (withColl = false → payback = amount?.getD (cx.mul info.base st.varIdx)) ∧
+      cx.div payback st.varIdx > 0 ∧
+      nb = subBase cx info.base (cx.div payback st.varIdx) ∧
+      (withColl = false → ∃ w', Wallet.debit cx.toNumCtx s.wallet tok payback false = .ok w' ∧
+        s'.core = ⟨s.supplies, borAfterSub s.borrows tok info nb, w',
+                   s.actions ++ [.repay tok payback (cx.mul nb st.varIdx)]⟩) ∧
+      (withColl = true → ∃ cinfo cst inColl cnb, AList.get? s.supplies (collTok?.getD tok) = some cinfo ∧
+        env.statusOf (collTok?.getD tok) = .ok cst ∧ cst.liqIdx ≠ 0 ∧
+        swapAmount cx env tok (collTok?.getD tok) payback = .ok inColl ∧
+        cnb = subBase cx cinfo.base (cx.div inColl cst.liqIdx) ∧
+        s'.core = ⟨supAfterSub s.supplies (collTok?.getD tok) cinfo cnb, borAfterSub s.borrows tok info nb, s.wallet,
+                   s.actions ++ [.repay tok payback (cx.mul nb st.varIdx)]⟩) := by
+  have hR := readInv_core (cx := cx) (env := env) s.core
+  unfold repay guardOpen lookupBorrow at h
+  obtain ⟨_, s1, h1, h⟩ := bind_ok_inv h
+  obtain ⟨hopen, rfl⟩ := require_ok_inv h1
+  obtain ⟨st, s1, h1, h⟩ := bind_ok_inv h
+  obtain ⟨hst, rfl⟩ := ofRes_ok_inv h1
+  obtain ⟨bv, s1, h1, h⟩ := bind_ok_inv h
+  obtain ⟨info, st', hg, hst', hamt, c1, g1⟩ := getBorrow_ok_good hs h1
+  rw [hst] at hst'; cases hst'
+  dsimp only at h
+  rw [hamt] at h
+  obtain ⟨payback, s2, h1, h⟩ := bind_ok_inv h
+  have hpb : (withColl = false → payback = amount?.getD (cx.mul info.base st.varIdx)) ∧ s2.core = s.core ∧
+      (withColl = true → ∃ cinfo, AList.get? s.supplies (collTok?.getD tok) = some cinfo) := by
+    unfold repayAmountOf at h1
+    cases withColl with
+    | false =>
+      simp only [Bool.false_eq_true, if_false] at h1
+      obtain ⟨e, rfl⟩ := pure_ok_inv h1
+      exact ⟨fun _ => e.symm, c1, fun hc => (by cases hc)⟩
+    | true =>
+      simp only [if_true] at h1
+      refine ⟨fun hc => (by cases hc), ?_, fun _ => ?_⟩
+      · have hk : KCP s.core (repayCollateralCap cx env tok (collTok?.getD tok) (amount?.getD (cx.mul info.base st.varIdx))) := by
+          have h4 : KCP s.core (suppliesView cx env) := hR.su
+          have h6 : ∀ k, KCP s.core (getSupply cx env k) := fun k => hR.toReadInv3.getSupply k
+          unfold repayCollateralCap
+          repeat (first | exact h6 _ | inv_step)
+        exact kcp_ok hk c1 h1
+      · obtain ⟨cinfo, hci⟩ := repayCollateralCap_ok_good g1 h1
+        have q : s1.supplies = s.supplies := congrArg Core.supplies c1
+        rw [q] at hci
+        exact ⟨cinfo, hci⟩
+  obtain ⟨hpay, c2, hcoll⟩ := hpb
+  obtain ⟨pbBase, s3, h1, h⟩ := bind_ok_inv h
+  obtain ⟨hpbb, rfl⟩ := ofRes_ok_inv h1
+  obtain ⟨hnz, rfl⟩ := divE_ok_eq hpbb
+  obtain ⟨_, s3, h1, h⟩ := bind_ok_inv h
+  obtain ⟨hpos, rfl⟩ := require_ok_inv h1
+  obtain ⟨info2, s3, h1, h⟩ := bind_ok_inv h
+  obtain ⟨hq, rfl⟩ := queryPos_ok_inv h1
+  have q2b : s2.borrows = s.borrows := congrArg Core.borrows c2
+  have : info = info2 := by
+    rw [q2b, hg] at hq; simp only [optRes] at hq; cases hq; rfl
+  subst this
+  obtain ⟨_, s3, h1, h⟩ := bind_ok_inv h
+  obtain ⟨_, rfl⟩ := require_ok_inv h1
+  obtain ⟨rr, s3, h1, h⟩ := bind_ok_inv h
+  obtain ⟨_, rfl⟩ := ofRes_ok_inv h1
+  obtain ⟨_, s3, h1, h⟩ := bind_ok_inv h
+  obtain ⟨_, rfl⟩ := require_ok_inv h1
+  obtain ⟨_, s3, h1, h⟩ := bind_ok_inv h
+  obtain ⟨debt, s4, h2, h⟩ := bind_ok_inv h
+  obtain ⟨_, s5, h3, h⟩ := bind_ok_inv h
+  have e5 := modify_ok_inv h3
+  have e6 := modify_ok_inv h
+  have q2s : s2.supplies = s.supplies := congrArg Core.supplies c2
+  have q2w : s2.wallet = s.wallet := congrArg Core.wallet c2
+  have q2a : s2.actions = s.actions := congrArg Core.actions c2
+  refine ⟨st, info, payback, _, hopen, hst, hnz, hg, hpay, by simpa using hpos, rfl, ?_, ?_⟩
+  · intro hw
+    subst hw
+    unfold takeRepayment at h1
+    simp only [Bool.false_eq_true, if_false] at h1
+    obtain ⟨w', hw', rfl⟩ := walletDebit_ok_inv h1
+    obtain ⟨st2, hst2, _, hdebt, e4⟩ := subBorrowAmount_ok_inv h2 (show AList.get? s2.borrows tok = some info by rw [q2b]; exact hg)
+    rw [hst] at hst2; cases hst2
+    refine ⟨w', by rw [← q2w]; exact hw', ?_⟩
+    rw [← e6, ← e5, e4, hdebt]
+    show (⟨s2.supplies, borAfterSub s2.borrows tok info _, w', s2.actions ++ _⟩ : Core) = _
+    rw [q2s, q2b, q2a]
+  · intro hw
+    subst hw
+    obtain ⟨cinfo, hci⟩ := hcoll rfl
+    unfold takeRepayment at h1
+    simp only [if_true] at h1
+    obtain ⟨inColl, s6, h4, h1⟩ := bind_ok_inv h1
+    obtain ⟨hsw, rfl⟩ := ofRes_ok_inv h4
+    obtain ⟨cnb, s6, h4, h1⟩ := bind_ok_inv h1
+    obtain ⟨_, rfl⟩ := pure_ok_inv h1
+    obtain ⟨cst, hcst, hcnz, hcnb, e3⟩ := subSupplyAmount_ok_inv h4 (show AList.get? s2.supplies _ = some cinfo by rw [q2s]; exact hci)
+    have hb3 : s6.borrows = s2.borrows := by rw [e3]; rfl
+    obtain ⟨st2, hst2, _, hdebt, e4⟩ := subBorrowAmount_ok_inv h2 (show AList.get? s6.borrows tok = some info by rw [hb3, q2b]; exact hg)
+    rw [hst] at hst2; cases hst2
+    refine ⟨cinfo, cst, inColl, cnb, hci, hcst, hcnz, hsw, hcnb, ?_⟩
+    rw [← e6, ← e5, e4, hdebt, e3]
+    show (⟨supAfterSub s2.supplies _ cinfo cnb, borAfterSub s2.borrows tok info _, s2.wallet, s2.actions ++ _⟩ : Core) = _
+    rw [q2s, q2b, q2w, q2a]
 
 end Demeter.Aave
